@@ -248,8 +248,29 @@ func identViaMain(c *IdentCase) error {
 			}
 			return nil
 		case <-time.After(8 * time.Second):
-			return fmt.Errorf("two configured logs share the origin %q (one ID) but the service started instead of refusing the configuration", c.Origins[c.Dup])
 		}
+		// Not back after 8 s: "the service started" is decided by the service answering, not by
+		// the clock (on an overloaded machine Main may simply not have been scheduled yet)
+		for waited := 8; waited < 90; waited += 2 {
+			if resp, herr := verifHTTP.Get("http://" + ln.Addr().String() + "/witness/v0/logs"); herr == nil {
+				resp.Body.Close()
+				if resp.StatusCode == 200 {
+					return fmt.Errorf("two configured logs share the origin %q (one ID) but the service started (it answers GET /witness/v0/logs) instead of refusing the configuration", c.Origins[c.Dup])
+				}
+			}
+			select {
+			case err := <-done:
+				stopped = true
+				cancel()
+				ln.Close()
+				if err == nil {
+					return fmt.Errorf("Main returned nil for a configuration with two logs sharing origin %q", c.Origins[c.Dup])
+				}
+				return nil
+			case <-time.After(2 * time.Second):
+			}
+		}
+		return fmt.Errorf("%s Main neither returned nor served within 90 s for a configuration with a duplicated origin", vlib.InfraMarker)
 	}
 	if err := stub.WaitConnected(120 * time.Second); err != nil {
 		select {
